@@ -313,6 +313,102 @@ fn sdk_defaults(acc: &mut Acc) -> usize {
     n
 }
 
+// ------------------------------------------------------------------ uploads sent chunk-signed
+
+/// The upload operations as a client sends them with a chunk-signed (STREAMING-AWS4-HMAC-SHA256-PAYLOAD) body: the request
+/// aws-sdk-s3 encodes for base() and for every single deviation of a header/query/metadata member is re-signed by the reference
+/// signer with the payload split into chunks. The typed input must equal the generated one - in particular `content_length` is
+/// the length of the object (the declared decoded length), not of the wire encoding, and the body is the payload.
+fn chunk_signed(acc: &mut Acc) -> usize {
+    use crate::sigref::*;
+    let ds = driver::all();
+    let date = "20240229T120000Z";
+    let payloads: [(&str, Vec<Vec<u8>>); 3] = [("one-chunk", vec![b"hello world".to_vec()]), ("three-chunks", vec![b"he".to_vec(), b"llo wor".to_vec(), b"ld".to_vec()]), ("empty", vec![])];
+    let mut cases: Vec<(usize, Vec<usize>, usize)> = Vec::new();
+    for (di, d) in ds.iter().enumerate() {
+        if !matches!(d.name(), "PutObject" | "UploadPart") {
+            continue;
+        }
+        let model = op_model(d.name()).expect("model");
+        for pi in 0..payloads.len() {
+            cases.push((di, vec![], pi));
+        }
+        for (i, l) in d.input_alt_labels().iter().enumerate() {
+            let f = top_field(l);
+            if f == "body" || f == "content_length" || f == "content_md5" || f.starts_with("checksum") {
+                continue; // the payload and what is derived from it are this part's own axis
+            }
+            if model.input.iter().any(|m| m.field == f && matches!(m.pos, Pos::Header | Pos::Query | Pos::Meta | Pos::Label)) {
+                cases.push((di, vec![i], 1));
+            }
+        }
+    }
+    let n = cases.len();
+    par_items(acc, &cases, |a, ci, (di, alts, pi)| {
+        let d = ds[*di].as_ref();
+        let labels = d.input_alt_labels();
+        let lab = alts.iter().map(|i| labels[*i].as_str()).collect::<Vec<_>>().join(" + ");
+        let (pname, pieces) = &payloads[*pi];
+        let id = || format!("chunksigned/{}/{pname}/{lab}", d.name());
+        if !a.selected(&id) {
+            return;
+        }
+        let Some(base) = sdk::capture(d, alts, Addressing::Path) else {
+            a.count("chunk-signed bases the SDK does not encode", 1);
+            return;
+        };
+        a.eval();
+        a.nontrivial(fnv(id().as_bytes()));
+        let payload: Vec<u8> = pieces.concat();
+        let mut r = base.req.clone();
+        for h in ["content-length", "content-md5", "x-amz-sdk-checksum-algorithm", "x-amz-checksum-crc32", "content-encoding", "x-amz-decoded-content-length"] {
+            r.remove_header(h);
+        }
+        r.headers.push(("content-encoding".into(), b"aws-chunked".to_vec()));
+        r.headers.push(("x-amz-decoded-content-length".into(), payload.len().to_string().into_bytes()));
+        let scope = Scope::new(AK, &date[..8], "us-east-1", "s3");
+        let seed = sign_v4_header(&mut r, SK, &scope, date, "STREAMING-AWS4-HMAC-SHA256-PAYLOAD", &["content-encoding", "x-amz-decoded-content-length"]);
+        let chunks = encode_chunks(SK, &scope, date, &seed, pieces);
+        let wire: Vec<u8> = chunks.iter().flat_map(EncodedChunk::bytes).collect();
+        r.headers.push(("content-length".into(), wire.len().to_string().into_bytes()));
+        s3s::verif_hooks::set_now(None);
+        let (svc, log) = SvcCfg::with_auth().build();
+        let out = call(&svc, &r, body_one_frame(&wire));
+        let calls = backend_calls(&log);
+        let Some(rec) = calls.iter().find(|c| c.op == d.name()) else {
+            a.outcome("[chunk-signed] UPLOAD NOT DELIVERED");
+            a.fail(&format!("C02/chunk-signed-upload-not-delivered/{}", d.name()), ci, id(), format!("answer {}", out.verdict()), json!({"request": r.describe()}));
+            return;
+        };
+        // compare with the generated input: everything but the stream-derived members, then those against the payload
+        let diff = block_on(d.diff_input(alts, rec)).unwrap_or_else(|e| vec![format!("body-stream: {e}")]);
+        let got_body = rec.body.as_ref().map(|b| b.bytes.clone()).unwrap_or_default();
+        let recd = d.recorded_debug(rec);
+        let cl_shown: String = recd.find("content_length: ").map(|i| recd[i + 16..].chars().take_while(|c| c.is_ascii_digit()).collect()).unwrap_or_default();
+        let model = op_model(d.name()).expect("model");
+        let want_absent = d.input_absent(alts);
+        // (members the SDK put on the wire itself - Content-Type of an upload - are the client's, like in the forward half)
+        let sdk_added = |f: &str| want_absent.contains(&f) && model.input.iter().any(|m| m.field == f && m.pos == Pos::Header && r.get_header(m.wire).is_some());
+        let mut bad: Vec<String> = diff.into_iter().filter(|f| !matches!(f.as_str(), "body" | "content_length" | "content_encoding" | "content_md5" | "checksum_algorithm") && !sdk_added(f)).collect();
+        if got_body != payload {
+            bad.push(format!("body ({} bytes instead of {})", got_body.len(), payload.len()));
+        }
+        if cl_shown != payload.len().to_string() {
+            bad.push(format!("content_length ({cl_shown:?} instead of the object's {} bytes; the wire encoding has {})", payload.len(), wire.len()));
+        }
+        if bad.is_empty() {
+            a.outcome("[chunk-signed] recorded input equals the generated input, content_length = the object's length");
+        } else {
+            a.outcome("[chunk-signed] RECORDED INPUT DIFFERS");
+            for b in bad {
+                let f = b.split(' ').next().unwrap_or("").to_owned();
+                a.fail(&format!("C02/chunk-signed/decode/{}.{f}", d.name()), ci, id(), format!("{} sent chunk-signed ({pname}; {lab}): {b}", d.name()), json!({"recorded": recd.chars().take(800).collect::<String>(), "request": r.describe()}));
+            }
+        }
+    });
+    n
+}
+
 // ------------------------------------------------------------------ rejection half
 
 #[derive(Clone, Debug)]
@@ -538,7 +634,7 @@ fn reject(acc: &mut Acc, _tier: Tier) -> serde_json::Value {
 
 pub fn run(ctx: &Ctx) -> (Acc, Report) {
     let mut acc = ctx.acc();
-    let part = ctx.replay.as_deref().map(|r| if r.starts_with("fwd/") { "fwd" } else if r.starts_with("sdkdefault/") { "sdkdefault" } else { "rej" });
+    let part = ctx.replay.as_deref().map(|r| if r.starts_with("fwd/") { "fwd" } else if r.starts_with("sdkdefault/") { "sdkdefault" } else if r.starts_with("chunksigned/") { "chunksigned" } else { "rej" });
     let mut extra = serde_json::Map::new();
     if part.is_none_or(|p| p == "fwd") {
         if let serde_json::Value::Object(m) = forward(&mut acc, ctx.tier) {
@@ -547,6 +643,9 @@ pub fn run(ctx: &Ctx) -> (Acc, Report) {
     }
     if ctx.replay.as_deref().is_none_or(|r| r.starts_with("sdkdefault/")) {
         extra.insert("sdk_default_configuration_cases".into(), json!(sdk_defaults(&mut acc)));
+    }
+    if ctx.replay.as_deref().is_none_or(|r| r.starts_with("chunksigned/")) {
+        extra.insert("chunk_signed_upload_cases".into(), json!(chunk_signed(&mut acc)));
     }
     if part.is_none_or(|p| p == "rej") {
         if let serde_json::Value::Object(m) = reject(&mut acc, ctx.tier) {
